@@ -4,6 +4,7 @@ import (
 	"go/token"
 	"go/types"
 	"sort"
+	"strings"
 
 	"golang.org/x/tools/go/ssa"
 )
@@ -94,8 +95,25 @@ func (s *Sem) anchors() *Anchors {
 	}
 	// channel-typed fields
 	if st, ok := s.channelT.Underlying().(*types.Struct); ok {
-		for i := 0; i < st.NumFields(); i++ {
-			f := st.Field(i)
+		// the fields of the channel struct, including those of plain struct-typed fields declared in the package
+		var flat []*types.Var
+		var collect func(st *types.Struct, d int)
+		collect = func(st *types.Struct, d int) {
+			for i := 0; i < st.NumFields(); i++ {
+				f := st.Field(i)
+				flat = append(flat, f)
+				if n := namedOf(f.Type()); n != nil && d < 2 && n.Obj().Pkg() == p.LimeT {
+					if _, isPtr := f.Type().(*types.Pointer); isPtr {
+						continue
+					}
+					if sub, ok := n.Underlying().(*types.Struct); ok {
+						collect(sub, d+1)
+					}
+				}
+			}
+		}
+		collect(st, 0)
+		for _, f := range flat {
 			ch, ok := f.Type().Underlying().(*types.Chan)
 			if !ok {
 				continue
@@ -106,13 +124,15 @@ func (s *Sem) anchors() *Anchors {
 				a.doneField = f
 			}
 		}
-		for i := 0; i < st.NumFields(); i++ {
-			f := st.Field(i)
+		for _, f := range flat {
 			if f.Type().String() == "sync.Mutex" {
 				// the send mutex is the one held around Transport.Send in the data sender
 				for _, c := range a.transportSends {
-					if heldLocks(c.Parent())[c]["W:"+f.Name()] {
-						a.sendMu = f
+					hl := heldLocks(c.Parent())[c]
+					for k := range hl {
+						if k == "W:"+f.Name() || strings.HasSuffix(k, "."+f.Name()) && strings.HasPrefix(k, "W:") {
+							a.sendMu = f
+						}
 					}
 				}
 			}
